@@ -49,7 +49,7 @@ theorem putUvarintFuel_last (f : Nat) : ∀ v, v < 2 ^ (7 * f + 7) →
         rw [e] at hv
         exact Nat.div_lt_of_lt_mul (by rw [Nat.mul_comm]; exact hv)
       obtain ⟨init, b, h1, h2⟩ := ih (v / 128) hpow
-      exact ⟨_ :: init, b, by rw [h1]; simp, h2⟩
+      exact ⟨(v % 128 + 128).toUInt8 :: init, b, by rw [h1]; rfl, h2⟩
 
 theorem putUvarint_last (v : Nat) (hv : v < 2 ^ 64) :
     ∃ init b, putUvarint v = init ++ [b] ∧ b ≠ 128 := by
@@ -172,5 +172,209 @@ theorem walkIndex_reach {nss : List NsIndex} (hs : NssSorted nss) {q k' : Nat} {
     have := ih (k0 + 1) (by omega)
     unfold walkIndex at this
     exact this
+
+/-! ## the layout relation -/
+
+/-- `Lay full nss p prev k l`: see the file header. -/
+def Lay (full : Bytes) (nss : List NsIndex) : Nat → Nat → Nat → List Id → Prop
+  | p, _, _, [] => p = full.length
+  | p, prev, k, id :: rest =>
+    id.2 < 2 ^ 64 ∧
+    ((p % 64 ≠ 0 ∧ prev ≤ id.2 ∧ putUvarint (id.2 - prev) <+: full.drop p ∧
+        p % 64 + (putUvarint (id.2 - prev)).length ≤ 64 ∧
+        (∃ idx, nss[k]? = some (id.1, idx)) ∧ (∀ e, nss[k + 1]? = some e → p < e.2) ∧
+        Lay full nss (p + (putUvarint (id.2 - prev)).length) id.2 k rest)
+     ∨
+     (∃ k', k ≤ k' ∧
+        (∀ i, p ≤ i → i < p + padLen p → full[i]? = some 128) ∧
+        (p % 64 ≠ 0 → ∃ b, full[p - 1]? = some b ∧ b ≠ 128) ∧
+        putUvarint id.2 <+: full.drop (p + padLen p) ∧
+        (∃ idx, nss[k']? = some (id.1, idx) ∧ idx ≤ p + padLen p) ∧
+        (∀ e, nss[k' + 1]? = some e → p + padLen p < e.2) ∧
+        Lay full nss (p + padLen p + (putUvarint id.2).length) id.2 k' rest))
+
+/-- the id `id` starts the block at byte `q` (absolute varint), in namespace `k'`; `rest` follows -/
+def AtBlock (full : Bytes) (nss : List NsIndex) (q k' : Nat) (id : Id) (rest : List Id) : Prop :=
+  q % 64 = 0 ∧ id.2 < 2 ^ 64 ∧ putUvarint id.2 <+: full.drop q ∧
+  (∃ idx, nss[k']? = some (id.1, idx) ∧ idx ≤ q) ∧
+  (∀ e, nss[k' + 1]? = some e → q < e.2) ∧
+  Lay full nss (q + (putUvarint id.2).length) id.2 k' rest
+
+theorem prefix_bound {full x : Bytes} {q : Nat} (h : x <+: full.drop q) (hx : 1 ≤ x.length) :
+    q + x.length ≤ full.length := by
+  have := h.length_le
+  simp only [List.length_drop] at this
+  omega
+
+/-! ## `Next` in two steps: where to read, then read -/
+
+/-- the tail of `Iterator.Next` once the read position `i1` is known -/
+def readAt (pl : PostingList) (k0 val i1 : Nat) : Except Err (Bool × It) :=
+  let ns := walkIndex pl.header.namespaces i1 k0
+  let r := uvarintRaw (pl.ids.drop i1)
+  if r.2 ≤ 0 then .error .corrupt else
+  let value := if i1 % 64 = 0 then r.1 else (val + r.1) % 2 ^ 64
+  .ok (true, ⟨ns, i1 + r.2.toNat, value⟩)
+
+theorem next_noskip {pl : PostingList} {it : It} {e : Nat} (hlt : it.i < pl.ids.length)
+    (hscan : (if (it.i / 64 + 1) * 64 < pl.ids.length then scanBack pl.ids ((it.i / 64 + 1) * 64)
+              else .ok ((it.i / 64 + 1) * 64)) = .ok e)
+    (hne : it.i ≠ e) : next pl it = readAt pl it.ns it.value it.i := by
+  unfold next readAt
+  simp only [hscan]
+  have h1 : ¬ it.i ≥ pl.ids.length := by omega
+  simp only [h1, if_false, hne, false_and]
+
+theorem next_skip {pl : PostingList} {it : It} (hlt : (it.i / 64 + 1) * 64 < pl.ids.length)
+    (hscan : scanBack pl.ids ((it.i / 64 + 1) * 64) = .ok it.i) :
+    next pl it = readAt pl it.ns it.value ((it.i / 64 + 1) * 64) := by
+  unfold next readAt
+  have h0 : it.i < pl.ids.length := by
+    have := Nat.div_add_mod it.i 64
+    have := Nat.mod_lt it.i (show 64 > 0 by omega)
+    omega
+  have h1 : ¬ it.i ≥ pl.ids.length := by omega
+  have h2 : ¬ (it.i / 64 + 1) * 64 ≥ pl.ids.length := by omega
+  simp only [h1, if_false, hlt, if_true, hscan, true_and, h2]
+
+theorem readAt_varint {pl : PostingList} {k0 val i1 x : Nat} (hx : x < 2 ^ 64)
+    (hp : putUvarint x <+: pl.ids.drop i1) :
+    readAt pl k0 val i1 = .ok (true, ⟨walkIndex pl.header.namespaces i1 k0, i1 + (putUvarint x).length,
+      if i1 % 64 = 0 then x else (val + x) % 2 ^ 64⟩) := by
+  obtain ⟨post, hpost⟩ := hp
+  unfold readAt
+  rw [← hpost, uvarintRaw_putUvarint_append x hx post]
+  have hpos := putUvarint_length_pos x
+  have : ¬ ((putUvarint x).length : Int) ≤ 0 := by omega
+  simp only [this, if_false, Int.toNat_natCast]
+
+/-- `Next` on a block start (stale namespace index `k0 ≤ k'`, stale value): reads the block's first id -/
+theorem next_atBlock {pl : PostingList} {q k' : Nat} {id : Id} {rest : List Id}
+    (hs : NssSorted pl.header.namespaces)
+    (h : AtBlock pl.ids pl.header.namespaces q k' id rest) (k0 val : Nat) (hk : k0 ≤ k') :
+    next pl ⟨k0, q, val⟩ = .ok (true, ⟨k', q + (putUvarint id.2).length, id.2⟩) := by
+  obtain ⟨hq, hv, hp, ⟨idx, hk', hidx⟩, hnext, _⟩ := h
+  have hpos := putUvarint_length_pos id.2
+  have hle := putUvarint_length_le id.2
+  have hb := prefix_bound hp hpos
+  obtain ⟨b, hb1, hb2⟩ := last_byte_of_prefix hv hp
+  have hend : (q / 64 + 1) * 64 = q + 64 := by omega
+  have hscan : ∃ e, (if (q / 64 + 1) * 64 < pl.ids.length then scanBack pl.ids ((q / 64 + 1) * 64)
+              else .ok ((q / 64 + 1) * 64)) = .ok e ∧ q ≠ e := by
+    rw [hend]
+    by_cases hl : q + 64 < pl.ids.length
+    · rw [if_pos hl]
+      obtain ⟨r, h1, h2, _⟩ := scanBack_ge hb1 hb2 (q + 64) (by omega) (by omega)
+      exact ⟨r, h1, by omega⟩
+    · rw [if_neg hl]; exact ⟨q + 64, rfl, by omega⟩
+  obtain ⟨e, hscan, hne⟩ := hscan
+  rw [next_noskip (it := ⟨k0, q, val⟩) (by simp only; omega) hscan hne]
+  simp only
+  rw [readAt_varint hv hp, if_pos hq]
+  have hw := walkIndex_reach hs hk' hidx hnext (k' - k0) k0 (by omega)
+  rw [hw]
+
+/-- `Next` from a `Lay` state reads the head id and lands in the `Lay` state of the tail -/
+theorem next_lay {pl : PostingList} {p prev k : Nat} {id : Id} {rest : List Id}
+    (hs : NssSorted pl.header.namespaces)
+    (h : Lay pl.ids pl.header.namespaces p prev k (id :: rest)) :
+    ∃ p' k', next pl ⟨k, p, prev⟩ = .ok (true, ⟨k', p', id.2⟩) ∧
+      (∃ idx, pl.header.namespaces[k']? = some (id.1, idx)) ∧ k ≤ k' ∧ p < p' ∧
+      Lay pl.ids pl.header.namespaces p' id.2 k' rest := by
+  unfold Lay at h
+  obtain ⟨hv, h⟩ := h
+  rcases h with ⟨hp64, hprev, hp, hfit, hk, hnext, hrest⟩ | ⟨k', hkk, hpad, hbefore, hp, ⟨idx, hk', hidx⟩, hnext, hrest⟩
+  · -- delta inside the block
+    have hx : id.2 - prev < 2 ^ 64 := by omega
+    have hpos := putUvarint_length_pos (id.2 - prev)
+    have hb := prefix_bound hp hpos
+    obtain ⟨b, hb1, hb2⟩ := last_byte_of_prefix hx hp
+    have hscan : ∃ e, (if (p / 64 + 1) * 64 < pl.ids.length then scanBack pl.ids ((p / 64 + 1) * 64)
+                else .ok ((p / 64 + 1) * 64)) = .ok e ∧ p ≠ e := by
+      by_cases hl : (p / 64 + 1) * 64 < pl.ids.length
+      · rw [if_pos hl]
+        obtain ⟨r, h1, h2, _⟩ := scanBack_ge hb1 hb2 ((p / 64 + 1) * 64) (by omega) (by omega)
+        exact ⟨r, h1, by omega⟩
+      · rw [if_neg hl]; exact ⟨_, rfl, by omega⟩
+    obtain ⟨e, hscan, hne⟩ := hscan
+    refine ⟨p + (putUvarint (id.2 - prev)).length, k, ?_, hk, Nat.le_refl _, by omega, hrest⟩
+    rw [next_noskip (it := ⟨k, p, prev⟩) (by simp only; omega) hscan hne]
+    simp only
+    rw [readAt_varint hx hp, if_neg hp64]
+    have hw : walkIndex pl.header.namespaces p k = k := by
+      unfold walkIndex
+      apply walkIndexAux_stay
+      intro e he
+      rw [List.head?_drop] at he
+      exact hnext e he
+    rw [hw]
+    have : (prev + (id.2 - prev)) % 2 ^ 64 = id.2 := by
+      have : prev + (id.2 - prev) = id.2 := by omega
+      rw [this]; exact Nat.mod_eq_of_lt hv
+    rw [this]
+  · -- next block start (after the padding, if any)
+    have hat : AtBlock pl.ids pl.header.namespaces (p + padLen p) k' id rest :=
+      ⟨padLen_mod p, hv, hp, ⟨idx, hk', hidx⟩, hnext, hrest⟩
+    have hpos := putUvarint_length_pos id.2
+    have hb := prefix_bound hp hpos
+    refine ⟨p + padLen p + (putUvarint id.2).length, k', ?_, ⟨idx, hk'⟩, hkk, by omega, hrest⟩
+    by_cases hp64 : p % 64 = 0
+    · have : padLen p = 0 := padLen_zero hp64
+      rw [this] at hat ⊢
+      exact next_atBlock hs hat k prev hkk
+    · -- in the padding: skip to the block end
+      obtain ⟨b, hb1, hb2⟩ := hbefore hp64
+      have hpl : padLen p = 64 - p % 64 := padLen_pos hp64
+      have hend : (p / 64 + 1) * 64 = p + padLen p := by omega
+      have hscan : scanBack pl.ids ((p / 64 + 1) * 64) = .ok p := by
+        rw [hend]
+        exact scanBack_eq (by omega) hb1 hb2 (p + padLen p) (by omega) hpad
+      rw [next_skip (it := ⟨k, p, prev⟩) (by simp only; omega) hscan]
+      simp only
+      rw [hend, readAt_varint hv hp, if_pos (padLen_mod p)]
+      have hw := walkIndex_reach hs hk' hidx hnext (k' - k) k (by omega)
+      rw [hw]
+
+theorem lay_length {full : Bytes} {nss : List NsIndex} : ∀ (l : List Id) (p prev k : Nat),
+    Lay full nss p prev k l → p + l.length ≤ full.length := by
+  intro l
+  induction l with
+  | nil => intro p prev k h; unfold Lay at h; simp; omega
+  | cons id rest ih =>
+    intro p prev k h
+    unfold Lay at h
+    obtain ⟨_, h⟩ := h
+    rcases h with ⟨_, _, _, _, _, _, hrest⟩ | ⟨k', _, _, _, _, _, _, hrest⟩
+    · have := ih _ _ _ hrest
+      have := putUvarint_length_pos (id.2 - prev)
+      simp only [List.length_cons]; omega
+    · have := ih _ _ _ hrest
+      have := putUvarint_length_pos id.2
+      simp only [List.length_cons]; omega
+
+/-- draining a `Lay` state yields exactly the list -/
+theorem drainFuel_lay {pl : PostingList} (hs : NssSorted pl.header.namespaces) :
+    ∀ (l : List Id) (p prev k fuel : Nat), Lay pl.ids pl.header.namespaces p prev k l → l.length < fuel →
+      drainFuel pl fuel ⟨k, p, prev⟩ = some l := by
+  intro l
+  induction l with
+  | nil =>
+    intro p prev k fuel h hf
+    unfold Lay at h
+    cases fuel with
+    | zero => simp at hf
+    | succ fuel =>
+      unfold drainFuel next
+      simp [h]
+  | cons id rest ih =>
+    intro p prev k fuel h hf
+    cases fuel with
+    | zero => simp at hf
+    | succ fuel =>
+      obtain ⟨p', k', hn, ⟨idx, hk'⟩, _, _, hrest⟩ := next_lay hs h
+      unfold drainFuel
+      rw [hn]
+      simp only [cur, hk']
+      rw [ih p' id.2 k' fuel hrest (by simp only [List.length_cons] at hf; omega)]
 
 end B6.Model.Posting
